@@ -146,12 +146,31 @@ pub fn run(env: &Env) -> Rec {
                 Some(c) => c,
                 None => continue,
             };
-            for with_prefix in [false, true] {
+            // contexts: c; a c; alef c bet (a right-to-left label around c: the Bidi rule's rejection paths for
+            // every class); fullwidth-A c (c in the copy loop behind a mapped character); c alef
+            for ctxn in 0..5u8 {
+                let with_prefix = ctxn != 0;
                 s.clear();
-                if with_prefix {
-                    s.push('a');
+                match ctxn {
+                    0 => s.push(c),
+                    1 => {
+                        s.push('a');
+                        s.push(c)
+                    }
+                    2 => {
+                        s.push('\u{5D0}');
+                        s.push(c);
+                        s.push('\u{5D1}')
+                    }
+                    3 => {
+                        s.push('\u{FF21}');
+                        s.push(c)
+                    }
+                    _ => {
+                        s.push(c);
+                        s.push('\u{5D0}')
+                    }
                 }
-                s.push(c);
                 let case = || format!("label={}", util::esc(&s));
                 for p in ALL_PROF {
                     for k in ALL_RULES {
@@ -162,6 +181,9 @@ pub fn run(env: &Env) -> Rec {
                         flag(rec, &format!("{}::prepare", p.name()), &case, &api::prepare(p, &s));
                     }
                 }
+                if ctxn >= 2 {
+                    continue;
+                }
                 for cl in ALL_CLASS {
                     flag(rec, &format!("{:?}::allows", cl), &case, &api::class_allows(cl, &s));
                 }
@@ -169,7 +191,7 @@ pub fn run(env: &Env) -> Rec {
         }
     });
     rec.merge(ra2);
-    rec.exhaustive("every Unicode scalar value as c and a c through all five Rules methods, prepare/enforce of the four profiles and allows of both classes");
+    rec.exhaustive("every Unicode scalar value c as c, a c, alef c bet, fullwidth-A c and c alef through all five Rules methods and enforce of the four profiles (c and a c also through prepare and allows of both classes)");
     // (b) exhaustive multi-byte strings
     let max_len = if env.quick() { 5 } else { 6 };
     let k = gen::ALPHA9.len();
